@@ -683,7 +683,7 @@ def load_results():
             l = l.strip()
             if l:
                 r = json.loads(l)
-                res[r["id"]] = r
+                res[r["id"] + ("#" + r["tag"] if r.get("tag") else "")] = r
     return res
 
 RESLOCK = threading.Lock()
@@ -777,9 +777,9 @@ def classify(recs):
         return "detected-check-failed"      # a check crashed / timed out without printing a VIOLATION line: listed separately
     return "survived"
 
-def process_mutant(k, m, rundir):
+def process_mutant(k, m, rundir, only_checks=None, skip_suite=False, sub=""):
     S, env = slot_env(k)
-    logdir = os.path.join(rundir, m["id"]); os.makedirs(logdir, exist_ok=True)
+    logdir = os.path.join(rundir, m["id"] + sub); os.makedirs(logdir, exist_ok=True)
     log = os.path.join(logdir, "build.log"); open(log, "w").close()
     res = {"id": m["id"], "file": m["file"], "line": m["line"], "function": m["function"], "operator": m["operator"],
            "slot": k, "t_start": int(time.time())}
@@ -797,7 +797,10 @@ def process_mutant(k, m, rundir):
         res["build_s"] = secs
         if rc != 0:
             res.update(status="stillborn", detail=open(log, errors="replace").read()[-400:]); return res
-        rc, secs = run_cmd(suite_cmd(crate), f"{S}/repo", renv, 360 + 600, log)   # 6 min for the tests + build allowance
+        if skip_suite:
+            rc, secs = 0, 0.0
+        else:
+            rc, secs = run_cmd(suite_cmd(crate), f"{S}/repo", renv, 360 + 600, log)   # 6 min for the tests + build allowance
         res["suite_s"] = secs
         text = open(log, errors="replace").read()
         if rc != 0:
@@ -806,7 +809,7 @@ def process_mutant(k, m, rundir):
             return res
         msum = re.search(r"Summary \[[^\]]*\]\s*(\d+) tests? run: (\d+) passed", text)
         res["suite_tests"] = int(msum.group(1)) if msum else None
-        checks = checks_for(m["file"])
+        checks = only_checks or checks_for(m["file"])
         recs = run_checks(S, env, checks, logdir, keep=True)
         res["checks"] = recs
         res["status"] = classify(recs)
@@ -856,7 +859,7 @@ def cmd_run(args):
         muts = [m for m in muts if m["id"] in args.only or m["id"].split("-")[0] in args.only]
     done = load_results()
     rundir = args.rundir; os.makedirs(rundir, exist_ok=True)
-    todo = [m for m in muts if m["id"] not in done or args.redo]
+    todo = [m for m in muts if m["id"] not in done or args.redo or args.tag]
     if args.limit:
         todo = todo[:args.limit]
     deadline = time.time() + args.budget_min * 60
@@ -872,7 +875,7 @@ def cmd_run(args):
                 m = next(it, None)
             if m is None:
                 return
-            r = process_mutant(k, m, rundir)
+            r = process_mutant(k, m, rundir, only_checks=args.checks, skip_suite=args.skip_suite, sub=("." + args.tag if args.tag else ""))
             if args.tag:
                 r["tag"] = args.tag
             append_result(r)
@@ -892,7 +895,19 @@ def cmd_report(args):
     muts = {m["id"]: m for m in load_mutants()}
     res = load_results()
     rows = [r for r in res.values() if r["id"] in muts and not r.get("tag")]
-    after = [r for r in res.values() if r.get("tag")]
+    byid = {r["id"]: r for r in rows}
+    for r in res.values():
+        # supplementary checks on a suite survivor (checks outside the file -> checks table): merged into its row
+        if r.get("tag", "").startswith("extra") and r["id"] in byid and r.get("checks"):
+            base = byid[r["id"]]
+            if base.get("checks") is None:
+                continue
+            for c, v in r["checks"].items():
+                if c not in base["checks"]:
+                    v = dict(v, extra=True); base["checks"][c] = v
+            base["status"] = classify(base["checks"])
+            base["detected_by"] = [c for c, v in base["checks"].items() if v["with_replay"] or v["obligation_only"]]
+    after = [r for r in res.values() if r.get("tag") and not r["tag"].startswith("extra")]
     stats = json.load(open(os.path.join(OUT, "pool_stats.json")))
     cls = {}
     cp = os.path.join(OUT, "classification.json")
@@ -1002,7 +1017,8 @@ def main():
     r = sub.add_parser("run"); r.add_argument("--jobs", type=int, default=4); r.add_argument("--budget-min", type=float, default=150)
     r.add_argument("--rundir", default="/tmp/build/mutcamp/runs"); r.add_argument("--only", nargs="*"); r.add_argument("--redo", action="store_true")
     r.add_argument("--limit", type=int, default=0); r.add_argument("--first-slot", type=int, default=5); r.add_argument("--no-setup", action="store_true")
-    r.add_argument("--tag", default="")
+    r.add_argument("--tag", default="", help="label of a supplementary run (extra-*: more checks on a survivor, merged by report; after-*: re-run after strengthening)")
+    r.add_argument("--checks", nargs="*", help="run these checks instead of the relevant ones"); r.add_argument("--skip-suite", action="store_true")
     sub.add_parser("report")
     args = ap.parse_args()
     signal.signal(signal.SIGTERM, kill_children); signal.signal(signal.SIGINT, kill_children)
